@@ -17,7 +17,7 @@ from . import source, types as ty
 from .contract import Contract
 from .engine import NS, is_z3
 from .executor import Executor, _tobool
-from .values import (ADict, AList, ASet, Opaque, OutOfSubset, PathEnd, PyRaise, ReturnSignal, SFun, SObj)
+from .values import (ADict, AList, ASet, ClassRef, Opaque, OutOfSubset, PathEnd, PyRaise, ReturnSignal, SFun, SObj)
 
 Z3_TIMEOUT_MS = int(os.environ.get("PYVC_Z3_TIMEOUT_MS", "15000"))
 CVC5_TIMEOUT_S = int(os.environ.get("PYVC_CVC5_TIMEOUT_S", "30"))
@@ -226,6 +226,9 @@ class ModelFun:
         return _val(self.model, self.f.val_fn(*zargs))
 
 
+BUILD_OBJ_HOOK = None
+
+
 def build_value(model, v, t=None):
     """Symbolic input value -> concrete Python value for calling the real function."""
     if v is None or isinstance(v, (bool, int, str, float)):
@@ -243,7 +246,14 @@ def build_value(model, v, t=None):
         return [_val(model, v.sym_at(i)) for i in range(max(0, min(n, 10_000)))]
     if isinstance(v, SFun):
         return ModelFun(model, v)
+    if isinstance(v, ClassRef):
+        ci = source.class_table()[v.name]
+        return getattr(_import_repo_module(ci.module), v.name)
     if isinstance(v, SObj):
+        if BUILD_OBJ_HOOK is not None:
+            o = BUILD_OBJ_HOOK(model, v, lambda x: build_value(model, x))
+            if o is not None:
+                return o
         cname = v._cls_set[0]
         ci = source.class_table()[cname]
         mod = _import_repo_module(ci.module)
@@ -450,6 +460,8 @@ def _replay(fsrc, contract, ex, args, model, ob, case):
     info = {"confirmed": False}
     try:
         check_real_hash(fsrc)
+        global BUILD_OBJ_HOOK
+        BUILD_OBJ_HOOK = contract.build_args
         if contract.replay is not None:
             return contract.replay(fsrc, contract, ex, args, model, ob, case)
         fn, cls = real_function(fsrc)
@@ -504,6 +516,8 @@ def _replay(fsrc, contract, ex, args, model, ob, case):
 def _show(v):
     if isinstance(v, (int, str, bool, float)) or v is None:
         return v
+    if isinstance(v, type):
+        return f"<class {v.__name__}>"
     if isinstance(v, (list, tuple)):
         return [_show(x) for x in v[:40]]
     if isinstance(v, ModelFun):
